@@ -69,6 +69,67 @@ class Word:
         return "[" + " ".join(one(x) for x in self.s[:n]) + (" 0*%d" % (NS - n) if n < NS else "") + "]"
 
 
+class SByte:
+    """one byte of a slot word: four slots, most significant pair first"""
+    __slots__ = ("s",)
+
+    def __init__(self, s):
+        assert len(s) == 4
+        self.s = tuple(s)
+
+    def is_const(self):
+        return all(isinstance(x, int) for x in self.s)
+
+    def to_int(self):
+        v = 0
+        for x in self.s:
+            v = (v << 2) | x
+        return v
+
+    def __eq__(self, o):
+        return isinstance(o, SByte) and self.s == o.s
+
+    def __hash__(self):
+        return hash(self.s)
+
+    def __repr__(self):
+        return "b" + repr(self.s)
+
+
+def table_lookup(table, b):
+    """table[b] for a 256-entry constant table and a symbolic byte: exact when every output slot of the table is a function
+    of exactly one input slot (a slot permutation with a per-slot map, like a byte-wise reverse complement)"""
+    if b.is_const():
+        return table[b.to_int()]
+    if len(table) != 256:
+        raise Undecidable("symbolic index into a table of %d entries" % len(table))
+    out = []
+    for j in range(4):                      # output slot j (0 = most significant pair)
+        found = None
+        for p in range(4):                  # depends only on input slot p?
+            ok = True
+            m = {}
+            for v in range(256):
+                iv = (v >> (6 - 2 * p)) & 3
+                ov = (table[v] >> (6 - 2 * j)) & 3
+                if m.setdefault(iv, ov) != ov:
+                    ok = False
+                    break
+            if ok:
+                found = (p, tuple(m[i] for i in range(4)))
+                break
+        if found is None:
+            raise Undecidable("constant table is not a slot-wise map: output slot %d mixes several input slots" % j)
+        p, t = found
+        x = b.s[p]
+        if isinstance(x, int):
+            out.append(t[x])
+        else:
+            ident, t0 = x
+            out.append((ident, tuple(t[t0[i]] for i in range(4))))
+    return SByte(out)
+
+
 def lift(v):
     if isinstance(v, Word):
         return v
@@ -120,6 +181,15 @@ class SlotInterp(Interp):
     """absint.Interp whose u64 values may be Words."""
 
     def binop(self, op, a, b, ty):
+        if isinstance(a, SByte) or isinstance(b, SByte):
+            # the bounds check of a table lookup: a byte is below 256
+            if op == "Lt" and isinstance(a, SByte) and isinstance(b, int) and b >= 256:
+                return 1
+            if isinstance(a, SByte) and a.is_const():
+                return self.binop(op, a.to_int(), b, ty)
+            if isinstance(b, SByte) and b.is_const():
+                return self.binop(op, a, b.to_int(), ty)
+            raise Undecidable("%s on a symbolic byte" % op)
         if not isinstance(a, Word) and not isinstance(b, Word):
             return Interp.binop(self, op, a, b, ty)
         wo = op.endswith("WithOverflow")
@@ -150,9 +220,35 @@ class SlotInterp(Interp):
             return r
         raise Undecidable("%s on a symbolic word" % op)
 
+    def project(self, v, pr):
+        if isinstance(pr, dict) and "idx" in pr and isinstance(self.env.get(pr["idx"]), SByte):
+            tbl = v
+            while isinstance(tbl, tuple) and tbl and tbl[0] == "refval":
+                tbl = tbl[1]
+            if isinstance(tbl, list) and all(isinstance(x, int) for x in tbl):
+                return table_lookup(tbl, self.env[pr["idx"]])
+            raise Undecidable("symbolic index into a non-constant array")
+        return Interp.project(self, v, pr)
+
+    def assign(self, pl, v):
+        path = pl["p"]
+        if path and isinstance(path[-1], dict) and "idx" in path[-1]:
+            tgt = self.read_place({"l": pl["l"], "p": path[:-1]})
+            i = self.env[path[-1]["idx"]]
+            if isinstance(tgt, list) and isinstance(i, int):
+                if not 0 <= i < len(tgt):
+                    raise Panic("index out of bounds")
+                tgt[i] = v
+                return
+        return Interp.assign(self, pl, v)
+
     def rvalue(self, rv):
         if rv["k"] == "cast":
             v = self.operand(rv["op"])
+            if isinstance(v, SByte):
+                if rv["ck"] == "IntToInt":
+                    return v          # widening a byte keeps its four slots (used as an index or re-narrowed)
+                raise Undecidable("cast %s of a symbolic byte" % rv["ck"])
             if isinstance(v, Word):
                 if rv["ck"] == "IntToInt" and rv["ty"] in ("u64", "i64"):
                     return v
@@ -185,6 +281,26 @@ class SlotInterp(Interp):
                 return {"__adt": "core::option::Option", "__var": "Some", 0: st}
             return {"__adt": "core::option::Option", "__var": "None"}
         args = [self.operand(a) for a in t["args"]]
+        m_ = re.search(r"core::num::<impl u64>::(to_be_bytes|from_be_bytes|to_le_bytes|from_le_bytes)$", c)
+        if m_ and args and (isinstance(self.deref_arg(args[0]), (Word, list))):
+            op = m_.group(1)
+            a0 = self.deref_arg(args[0])
+            if op.startswith("to_") and isinstance(a0, Word):
+                bs = [SByte(a0.s[4 * i:4 * i + 4]) for i in range(8)]
+                bs = [b.to_int() if b.is_const() else b for b in bs]
+                return bs if op == "to_be_bytes" else bs[::-1]
+            if op.startswith("from_") and isinstance(a0, list) and len(a0) == 8:
+                bs = a0 if op == "from_be_bytes" else a0[::-1]
+                slots = []
+                for b in bs:
+                    if isinstance(b, SByte):
+                        slots.extend(b.s)
+                    elif isinstance(b, int):
+                        slots.extend([(b >> 6) & 3, (b >> 4) & 3, (b >> 2) & 3, b & 3])
+                    else:
+                        raise Undecidable("from_be_bytes of %r" % (b,))
+                w = Word(slots)
+                return w.to_int() if w.is_const() else w
         if any(isinstance(a, Word) and not a.is_const() for a in args):
             f = self.F.funcs.get(c)
             if f is not None and f.crate in ("ragc_core", "ragc_common") and len(args) == 1:
